@@ -477,6 +477,68 @@ theorem run_processes_all (v : Variant) (hv : v.snapDispatch = true) (beh : Beh)
     rw [this.2, handlePacket_pkts v hv beh st h halive]
     exact ⟨this.1, by simp⟩
 
+/-! ### packet objects: the "no packet" test -/
+
+theorem receive_eq (v : Variant) (beh : Beh) (st : St) (p : Pkt) (h : p.skipped = false) :
+    receive v beh st p = handlePacket v beh st p.hdr := by
+  unfold receive
+  by_cases hd : st.dead = true
+  · rw [if_pos hd, handlePacket_dead_of_dead v beh st p.hdr hd]
+  · rw [if_neg hd, h]; rfl
+
+theorem runPkts_eq_run (v : Variant) (beh : Beh) (hs : ∀ p : Pkt, p.skipped = false) :
+    ∀ (pkts : List Pkt) (st : St), runPkts v beh st pkts = run v beh st (pkts.map (·.hdr)) := by
+  intro pkts
+  induction pkts with
+  | nil => intro st; rfl
+  | cons p ps ih =>
+    intro st
+    simp only [runPkts, run, List.foldl_cons, List.map_cons] at ih ⊢
+    rw [receive_eq v beh st p (hs p)]
+    exact ih _
+
+theorem dispatchSnap_allCalls (v : Variant) (beh : Beh) (hdr : Nat) : ∀ (rs : List Reg) (st : St),
+    allCallsOf (dispatchSnap v beh hdr rs st).trace = allCallsOf st.trace := by
+  intro rs
+  induction rs with
+  | nil => intro st; simp [dispatchSnap]
+  | cons r rs ih =>
+    intro st
+    simp only [dispatchSnap]
+    split
+    · rw [ih]; unfold allCallsOf; rw [invoke_proj _ asAllCall_body]; simp [Ev.asAllCall]
+    · exact ih st
+
+/-- one packet: the all-packet callbacks registered when it is taken all get it, once, in order -/
+theorem handlePacket_allCalls (v : Variant) (hv : v.snapDispatch = true) (beh : Beh)
+    (hq : AllPacketCallbacksQuiet beh) (st : St) (hdr : Nat) (halive : st.dead = false) :
+    allCallsOf (handlePacket v beh st hdr).trace = allCallsOf st.trace ++ st.all := by
+  have hq' := callerGo_quiet v beh hq (st.push (.pkt hdr)).all (st.push (.pkt hdr))
+  have h1 : allCallsOf (afterAll v beh st hdr).trace = allCallsOf st.trace ++ st.all := by
+    unfold afterAll callerCall; rw [hq'.2]; simp [St.push, allCallsOf, Ev.asAllCall]
+  have h2 : (afterAll v beh st hdr).dead = false := by
+    unfold afterAll callerCall; rw [hq'.1]; exact halive
+  simp only [handlePacket, halive, h2, dispatch, hv, Bool.false_eq_true, if_false, if_true]
+  rw [dispatchSnap_allCalls, h1]
+
+theorem handlePacket_ext (v : Variant) (hv : v.snapDispatch = true) (beh : Beh) (st : St) (hdr : Nat) :
+    ∃ ext, (handlePacket v beh st hdr).trace = st.trace ++ ext := by
+  unfold handlePacket
+  by_cases hd : st.dead = true
+  · exact ⟨[], by simp [hd]⟩
+  · obtain ⟨e1, h1, _⟩ := callerGo_trace v beh (st.push (.pkt hdr)).all (st.push (.pkt hdr))
+    have ha : (afterAll v beh st hdr).trace = st.trace ++ (Ev.pkt hdr :: e1) := by
+      unfold afterAll callerCall; rw [h1]; simp [St.push]
+    have hd' : st.dead = false := by simpa using hd
+    simp only [hd', Bool.false_eq_true, if_false]
+    by_cases hd2 : (afterAll v beh st hdr).dead = true
+    · exact ⟨_, by simp only [hd2, if_true]; exact ha⟩
+    · obtain ⟨e2, h2⟩ := dispatchSnap_ext v beh hdr (afterAll v beh st hdr).regs (afterAll v beh st hdr)
+      refine ⟨Ev.pkt hdr :: e1 ++ e2, ?_⟩
+      have hd2' : (afterAll v beh st hdr).dead = false := by simpa using hd2
+      simp only [hd2', Bool.false_eq_true, if_false, dispatch, hv, if_true]
+      rw [h2, ha]; simp
+
 /-! ### callbacks that only raise leave the registry alone -/
 
 theorem runActs_static (v : Variant) (st : St) (acts : List Act) (h : ∀ a ∈ acts, a = Act.raise) :
